@@ -515,6 +515,12 @@ where
                     self.mode.set(InsertionMode::BeforeHtml);
                     return tokenizer::TokenSinkResult::Continue;
                 } else {
+                    if self.mode.get() == InsertionMode::InTableText {
+                        // A DOCTYPE token ends the run of table character tokens like any
+                        // other token, before it is ignored in the original insertion mode.
+                        self.flush_pending_table_text();
+                        self.mode.set(self.orig_mode.take().unwrap());
+                    }
                     self.sink.parse_error(if self.opts.exact_errors {
                         Cow::from(format!("DOCTYPE in insertion mode {:?}", self.mode.get()))
                     } else {
